@@ -279,6 +279,7 @@ func (in *Interp) resetPath() {
 	in.nObl, in.nDis = 0, 0
 	in.tseq = 0
 	in.quiesce = nil
+	in.holdTimers = false
 	in.guard = nil
 	in.facts = newFacts()
 }
